@@ -899,6 +899,22 @@ func (w *world) do(ci int, method, target string, body []byte) (*refctl.Message,
 }
 
 var (
+	sampleMu   sync.Mutex
+	sampleDone = map[string]bool{}
+)
+
+// sampleOnce writes one observed case of a class into the evidence.
+func sampleOnce(class string, f func() interface{}) {
+	sampleMu.Lock()
+	done := sampleDone[class]
+	sampleDone[class] = true
+	sampleMu.Unlock()
+	if !done {
+		run.Sample(f())
+	}
+}
+
+var (
 	sizeMu    sync.Mutex
 	maxChunks = map[string]int{}
 	maxFrames = map[string]int{}
@@ -1173,6 +1189,12 @@ func (w *world) get(ci int, list []ref, allowDup bool, seen map[*cell]readBack) 
 			}
 			run.Distinct("constructor_read", c.ctor)
 			run.Distinct("value_class_read", c.format+":"+valueClass(c.cur))
+			if (c.k == kString || c.k == kFloat) && len(list) <= 3 {
+				sampleOnce("read:"+c.format, func() interface{} {
+					return map[string]interface{}{"direction": "application -> controller", "constructor": c.ctor, "format": c.format, "application_set": show(c.cur),
+						"request": "GET " + tgt, "response_status": m.Status, "response_body": trunc(string(m.Body), 500), "decoded_equal": true}
+				})
+			}
 		}
 	}
 }
@@ -1442,6 +1464,12 @@ func (w *world) put(ci int, ws []write) {
 			} else {
 				c.cur, c.known = x.val, true
 				run.Distinct("constructor_written", c.ctor)
+				if (c.k == kString || c.k == kFloat) && len(ws) == 1 && len(x.raw) < 300 {
+					sampleOnce("write:"+c.format, func() interface{} {
+						return map[string]interface{}{"direction": "controller -> application", "constructor": c.ctor, "format": c.format, "request": "PUT /characteristics", "request_body": string(body),
+							"response_status": m.Status, "typed_getter_returns": show(v), "callbacks": len(cbs), "previous_value_differs": changed}
+					})
+				}
 				run.Distinct("value_class_written", c.format+":"+valueClass(x.val))
 			}
 		} else {
